@@ -660,9 +660,17 @@ func c19Terminal(sc *c19Scenario, out []string, sent []c19Sent) (offender, termi
 			if json.Unmarshal([]byte(sent[k].frame), &m) == nil {
 				switch m.Type {
 				case "subscribe", "start":
-					*get(m.ID) = st{}
+					// a new operation may use the id again; that the id was cancelled before stays on record
+					get(m.ID).terminal = ""
 				case "complete", "stop":
 					get(m.ID).clientCompleted = true
+				case "connection_terminate", "connection_init":
+					// graphql-ws cancels every operation on connection_terminate and on a refused connection_init
+					if sc.Proto == "legacy" && (m.Type == "connection_terminate" || strings.Contains(sent[k].frame, `"reject"`)) {
+						for _, x := range ids {
+							x.clientCompleted = true
+						}
+					}
 				}
 			}
 			k++
